@@ -148,6 +148,12 @@ class Relay:
         self.close_all()
         self.ls.close()
 
+    def max_stall(self):
+        """the longest the relay + simulator let a client wait for a block (seconds): a scenario is only valid when
+        this stays well below the client's timeout, else 'silence' happened where none was scripted"""
+        with self.lock:
+            return max([c["stall"] for c in self.conns] or [0.0])
+
     @property
     def count(self):
         with self.lock:
@@ -169,7 +175,8 @@ class Relay:
             with self.lock:
                 idx = len(self.conns)
                 pol = self.policies[idx] if idx < len(self.policies) else None
-                rec = {"s2c": [], "c2s": bytearray(), "server": bytearray(), "socks": (cs, ss), "policy": pol}
+                rec = {"s2c": [], "c2s": bytearray(), "server": bytearray(), "socks": (cs, ss), "policy": pol,
+                       "last": time.monotonic(), "stall": 0.0}
                 self.conns.append(rec)
             pol = pol or {}
             threading.Thread(target=self.pump_s2c, args=(ss, cs, rec, pol), daemon=True).start()
@@ -186,6 +193,9 @@ class Relay:
         step = chop or len(data)
         for o in range(0, len(data), step):
             piece = data[o:o + step]
+            now = time.monotonic()               # how long the client had to wait for this block since the last
+            rec["stall"] = max(rec["stall"], now - rec["last"])     # activity in either direction
+            rec["last"] = now
             rec["s2c"].append(bytes(piece))      # recorded before it can be seen by the client
             try:
                 dst.sendall(piece)
@@ -243,6 +253,7 @@ class Relay:
                     self._shut(dst)
                 return
             rec["c2s"] += d
+            rec["last"] = time.monotonic()
             if stopped:
                 continue
             if cut is not None and fwd + len(d) >= cut:
